@@ -1,8 +1,118 @@
 import PyPhysim.Model.Proto
-open PyPhysim.Proto
+import PyPhysim.Model.C08
+open PyPhysim.Proto PyPhysim.C08
 
--- stub: replaced when the C08 model is written
+/-!
+Line protocol of the C08 model driver (one history per line):
+
+  `run cls=plain|ext cfg=fixed|orig <op> <op> …`  →  one reply token per op
+
+scalars `re:im` (rationals `p/q`), rows `,`, matrix rows `;`, empty matrix `_`,
+lists of matrices `|`, matrix-of-matrices rows `&`, op fields `!`.
+The scalar type is the Gaussian rationals; `sqrt` is exact on squares of
+rationals (the harness sends nothing else; anything else is refused).
+-/
+
+structure GRat where
+  re : Rat
+  im : Rat
+  deriving DecidableEq, Repr
+
+instance : Add GRat := ⟨fun a b => ⟨a.re + b.re, a.im + b.im⟩⟩
+instance : Mul GRat := ⟨fun a b => ⟨a.re * b.re - a.im * b.im, a.re * b.im + a.im * b.re⟩⟩
+instance : Zero GRat := ⟨⟨0, 0⟩⟩
+
+def natSqrt? (n : Nat) : Option Nat := let r := n.sqrt; if r * r = n then some r else none
+
+def ratSqrt? (r : Rat) : Option Rat :=
+  if r.num < 0 then none else do
+    let a ← natSqrt? r.num.toNat
+    let b ← natSqrt? r.den
+    if b = 0 then none else some (mkRat a b)
+
+def gSqrt? (x : GRat) : Option GRat :=
+  if x.im ≠ 0 then none else (ratSqrt? x.re).map fun r => ⟨r, 0⟩
+
+def fns : Fns GRat :=
+  { sqrt := fun x => (gSqrt? x).getD x     -- never reached on a non-square: lines are pre-validated
+    conj := fun x => ⟨x.re, -x.im⟩
+    nonneg := fun x => decide (0 ≤ x.re) }
+
+-- ---------------------------------------------------------------- parsing
+def parseG? (s : String) : Option GRat :=
+  match s.splitOn ":" with
+  | [a, b] => do let x ← parseRat? a; let y ← parseRat? b; some ⟨x, y⟩
+  | [a] => do let x ← parseRat? a; some ⟨x, 0⟩
+  | _ => none
+
+def parseRow? (s : String) : Option (List GRat) :=
+  if s = "~" then some [] else (s.splitOn ",").mapM parseG?
+
+def parseMat? (s : String) : Option (Mat GRat) :=
+  if s = "_" then some [] else (s.splitOn ";").mapM parseRow?
+
+def parseMats? (s : String) : Option (List (Mat GRat)) :=
+  if s = "#" then some [] else (s.splitOn "|").mapM parseMat?
+
+def parseNats? (s : String) : Option (List Nat) :=
+  if s = "_" then some [] else (s.splitOn ",").mapM String.toNat?
+
+def parseOp? (tok : String) : Option (Op GRat) :=
+  match tok.splitOn "!" with
+  | ["init", m, nr, nt, k, nte] => do
+      some (.init (← parseMat? m) (← parseNats? nr) (← parseNats? nt) (← k.toNat?) (← parseNats? nte))
+  | ["rand", m, nr, nt, k, nte] => do
+      some (.randomize (← parseMat? m) (← parseNats? nr) (← parseNats? nt) (← k.toNat?) (← parseNats? nte))
+  | ["setpl", "none", _] => some (.setPL none [])
+  | ["setpl", p, pe] => do some (.setPL (some (← parseMat? p)) (← parseMat? pe))
+  | ["noise", "none"] => some (.setNoise none)
+  | ["noise", v] => do some (.setNoise (some (← parseG? v)))
+  | ["setw", "none"] => some (.setW none)
+  | ["setw", w] => do some (.setW (some (← parseMats? w)))
+  | ["H"] => some .readH
+  | ["bigH"] => some .readBigH
+  | ["Hkl", k, l] => do some (.readHkl (← k.toNat?) (← l.toNat?))
+  | ["Hk", k] => do some (.readHk (← k.toNat?))
+  | ["bigHne"] => some .readBigHNoExt
+  | ["Hkne", k] => do some (.readHkNoExt (← k.toNat?))
+  | ["Hne"] => some .readHNoExt
+  | ["corrupt", x, xe, "none"] => do some (.corrupt (← parseMats? x) (← parseMats? xe) none)
+  | ["corrupt", x, xe, n] => do some (.corrupt (← parseMats? x) (← parseMats? xe) (some (← parseMat? n)))
+  | _ => none
+
+/-- every path-loss entry of the line has an exact square root -/
+def sqrtOk : Op GRat → Bool
+  | .setPL (some p) pe => (p.all fun r => r.all fun x => (gSqrt? x).isSome)
+                          && (pe.all fun r => r.all fun x => (gSqrt? x).isSome)
+  | _ => true
+
+-- ---------------------------------------------------------------- printing
+def showG (x : GRat) : String := showRat x.re ++ ":" ++ showRat x.im
+def showRow (r : List GRat) : String := if r.isEmpty then "~" else showList showG r
+def showMat (m : Mat GRat) : String := if m.isEmpty then "_" else showList showRow m ";"
+def showMats (l : List (Mat GRat)) : String := if l.isEmpty then "#" else showList showMat l "|"
+def showMom (h : MoM GRat) : String := if h.isEmpty then "#" else showList showMats h "&"
+
+def showOut : Out GRat → String
+  | .unit => "unit"
+  | .err e => "err:" ++ toString e
+  | .mat m => "mat=" ++ showMat m
+  | .mom h => "mom=" ++ showMom h
+  | .rx ys ln => "rx=" ++ showMats ys ++ "@" ++ (match ln with | none => "none" | some n => showMat n)
+
 def handle : List String → String
+  | "run" :: cls :: cfg :: ops =>
+    match cls, cfg, ops.mapM parseOp? with
+    | _, _, none => "bad-op"
+    | cls, cfg, some ops =>
+      let isExt? := if cls = "cls=ext" then some true else if cls = "cls=plain" then some false else none
+      let cfg? := if cfg = "cfg=fixed" then some Cfg.fixed else if cfg = "cfg=orig" then some Cfg.orig else none
+      match isExt?, cfg? with
+      | some isExt, some cfg =>
+        if ops.all sqrtOk then
+          showList showOut (run cfg fns (State.init GRat isExt) ops).2 " "
+        else "unsupported-sqrt"
+      | _, _ => "bad-op"
   | _ => "bad-op"
 
 def main : IO Unit := runDriver handle
